@@ -99,6 +99,42 @@ theorem replayJ_asc {s : Nat} {l : List Grp} (h : AscFrom s l) :
     · exact i2
     · exact i3 g hg'
 
+/-- on an ascending stream the loop drops exactly the records that start below the expected sequence number
+    (they form a prefix) and accepts the rest -/
+theorem replayJ_filter {s : Nat} {l : List Grp} (h : AscFrom 0 l) :
+    (replayJ s l).1 = l.filter (fun g => decide (s ≤ g.seq)) ∧ s ≤ (replayJ s l).2 ∧
+    ∀ g ∈ l, s ≤ g.seq → g.fin ≤ (replayJ s l).2 := by
+  induction l generalizing s with
+  | nil => simp [replayJ]
+  | cons x xs ih =>
+    obtain ⟨_, h2, h3⟩ := h
+    have hx := Grp.seq_lt_fin h2
+    by_cases hlt : x.seq < s
+    · obtain ⟨i1, i2, i3⟩ := ih (s := s) (h3.mono (Nat.zero_le _))
+      simp only [replayJ, if_pos hlt]
+      refine ⟨?_, i2, ?_⟩
+      · rw [i1, List.filter_cons_of_neg (by simpa using hlt)]
+      · intro g hg hs
+        rcases List.mem_cons.1 hg with rfl | hg'
+        · omega
+        · exact i3 g hg' hs
+    · have hle : s ≤ x.seq := Nat.not_lt.1 hlt
+      obtain ⟨i1, i2, i3⟩ := replayJ_asc h3
+      simp only [replayJ, if_neg hlt]
+      refine ⟨?_, by omega, ?_⟩
+      · rw [i1, List.filter_cons_of_pos (by simpa using hle)]
+        congr 1
+        symm
+        rw [List.filter_eq_self]
+        intro g hg
+        have := h3.le_of_mem hg
+        simp only [decide_eq_true_eq]
+        omega
+      · intro g hg _
+        rcases List.mem_cons.1 hg with rfl | hg'
+        · exact i2
+        · exact i3 g hg'
+
 /-! ## `sortNums` on a sorted list -/
 
 theorem insertNum_of_le {n : Nat} {l : List Nat} (h : ∀ x ∈ l, n ≤ x) : insertNum n l = n :: l := by
@@ -218,20 +254,25 @@ theorem DiskOK.open_ok {cfg : Cfg} {d : Disk} {must issued : List Grp} (h : Disk
     have hall : (replayM cfg mf.all).view? = some v := by
       unfold viewAt at hv
       rwa [List.take_length] at hv
-    -- the journals
+    -- the journals: an ascending stream; the records below the manifest's sequence number are skipped
     have hrel : ∀ p ∈ relJournals d v.jn, p ∈ relJournals d v0.jn := fun p hp => relJournals_mono hmono hp
-    have hstream : AscFrom v.sq ((relJournals d v.jn).flatMap (·.2.all)) := by
+    have hstream : AscFrom 0 ((relJournals d v.jn).flatMap (·.2.all)) := by
       apply stream_asc
       · exact hs.filter _
       · exact fun p hp => hasc p (hrel p hp)
       · exact fun p hp q hq => hord p (hrel p hp) q (hrel q hq)
-      · exact fun p hp g hg => (hok.jseq p hp g hg).1
-    obtain ⟨a1, a2, a3⟩ := replayJ_asc hstream
+      · exact fun p hp g hg => Nat.zero_le _
+    obtain ⟨a1, a2, a3⟩ := replayJ_filter (s := v.sq) hstream
     have hjr : journalRecs d (journalsFrom d v.jn) = (relJournals d v.jn).flatMap (·.2.all) := by
       rw [journalsFrom_eq hs]
       exact journalRecs_eq hs _ (fun p hp => (mem_relJournals.1 hp).1)
     have htg := tableGroups_ok (d := d) v.live (fun t ht => (hok.tables t ht).2)
-    refine ⟨⟨v, journalsFrom d v.jn, liveGrps d v, (relJournals d v.jn).flatMap (·.2.all),
+    have hmemj : ∀ g, g ∈ ((relJournals d v.jn).flatMap (·.2.all)).filter (fun g => decide (v.sq ≤ g.seq)) ↔
+        (∃ p ∈ relJournals d v.jn, g ∈ p.2.all) ∧ v.sq ≤ g.seq := by
+      intro g
+      simp only [List.mem_filter, List.mem_flatMap, decide_eq_true_eq]
+    refine ⟨⟨v, journalsFrom d v.jn, liveGrps d v,
+      ((relJournals d v.jn).flatMap (·.2.all)).filter (fun g => decide (v.sq ≤ g.seq)),
       (replayJ v.sq ((relJournals d v.jn).flatMap (·.2.all))).2⟩, ?_, ?_⟩
     · unfold recoverR
       simp only [hc, hmf, hall, htg, hjr, a1]
@@ -241,12 +282,16 @@ theorem DiskOK.open_ok {cfg : Cfg} {d : Disk} {must issued : List Grp} (h : Disk
         simp only [RState.grps, List.mem_append]
         rcases hok.cover g hg with h1 | ⟨p, hp, hgp⟩
         · exact Or.inl h1
-        · exact Or.inr (List.mem_flatMap.2 ⟨p, hp, by simp [LogFile.all, hgp]⟩)
+        · have hga : g ∈ p.2.all := by simp [LogFile.all, hgp]
+          refine Or.inr ((hmemj g).2 ⟨⟨p, hp, hga⟩, ?_⟩)
+          rcases (hok.jseq p hp g hga).1 with h1 | h1
+          · exact h1
+          · exact absurd hg h1
       · intro g hg
         simp only [RState.grps, List.mem_append] at hg
         rcases hg with h1 | h1
         · exact (hok.tseq g h1).2.1
-        · obtain ⟨p, hp, hgp⟩ := List.mem_flatMap.1 h1
+        · obtain ⟨⟨p, hp, hgp⟩, _⟩ := (hmemj g).1 h1
           exact (hok.jseq p hp g hgp).2
       · intro g hg
         simp only [RState.grps, List.mem_append] at hg
@@ -254,21 +299,24 @@ theorem DiskOK.open_ok {cfg : Cfg} {d : Disk} {must issued : List Grp} (h : Disk
         rcases hg with h1 | h1
         · have := (hok.tseq g h1).1
           omega
-        · have := a3 g h1
+        · have := a3 g ((List.mem_filter.1 h1).1) ((hmemj g).1 h1).2
           omega
       · intro g hg h' hh
         simp only [RState.grps, List.mem_append] at hg hh
         rcases hg with h1 | h1 <;> rcases hh with h2 | h2
         · exact hok.tdisj g h1 h' h2
-        · obtain ⟨p, hp, hgp⟩ := List.mem_flatMap.1 h2
-          exact Or.inr (Or.inl (hok.tj g h1 p hp h' hgp))
-        · obtain ⟨p, hp, hgp⟩ := List.mem_flatMap.1 h1
-          exact Or.inr (Or.inr (hok.tj h' h2 p hp g hgp))
-        · exact hstream.disj h1 h2
+        · obtain ⟨⟨p, hp, hgp⟩, _⟩ := (hmemj h').1 h2
+          exact hok.tj g h1 p hp h' hgp
+        · obtain ⟨⟨p, hp, hgp⟩, _⟩ := (hmemj g).1 h1
+          rcases hok.tj h' h2 p hp g hgp with x | x | x
+          · exact Or.inl x.symm
+          · exact Or.inr (Or.inr x)
+          · exact Or.inr (Or.inl x)
+        · exact hstream.disj ((List.mem_filter.1 h1).1) ((List.mem_filter.1 h2).1)
       · intro g hg
         simp only [RState.grps, List.mem_append] at hg
         rcases hg with h1 | h1
         · exact (hok.tseq g h1).2.2
-        · exact hstream.recs_ne h1
+        · exact hstream.recs_ne ((List.mem_filter.1 h1).1)
 
 end GoLevel.Dur
